@@ -64,14 +64,6 @@ inductive Err where
   | unknownType    -- unknown prefix
   deriving DecidableEq, Repr
 
-instance : DecidableEq (Except Err Unit) := fun a b =>
-  match a, b with
-  | .ok (), .ok () => isTrue rfl
-  | .error x, .error y =>
-    if h : x = y then isTrue (by rw [h]) else isFalse (by intro h'; cases h'; exact h rfl)
-  | .ok _, .error _ => isFalse (by intro h; cases h)
-  | .error _, .ok _ => isFalse (by intro h; cases h)
-
 abbrev Res := R (Except Err Unit)
 
 def ok : Res := .val (.ok ())
